@@ -240,6 +240,21 @@ class MergeModel(object):
         if e.k == 'CXXMemberCallExpr' and e.callee and e.callee['name'] in ('push_back', 'emplace_back'):
             acts.append(('push', self.value_desc(e.args()[0]) if len(e.args()) == 1 else ('tuple',) + tuple(self.value_desc(a) for a in e.args())))
             return
+        # *out++ = x  with  out = std::back_inserter(container): the same append
+        if e.k == 'CXXOperatorCallExpr' and e.op == '=' and len(e.c) == 3:
+            l_ = e.c[1].strip_all()
+            hops_ = 0
+            while l_.k == 'CXXOperatorCallExpr' and l_.op in ('*', '++') and len(l_.c) >= 2 and hops_ < 4:
+                l_ = l_.c[1].strip_all()
+                hops_ += 1
+            ov_ = ex.var_of(l_)
+            if ov_ is not None and hops_ > 0:
+                decl_ = [x for (x, r_) in ex.assignments_to(self.fn, ov_) if x.k == 'VarDecl' and r_ is not None]
+                reassigned_ = [x for (x, r_) in ex.assignments_to(self.fn, ov_) if x.k in ('BinaryOperator',) or (x.k == 'CXXOperatorCallExpr' and x.op == '=')]
+                dd_ = decl_[0].c[0].strip_all() if len(decl_) == 1 and not reassigned_ else None
+                if dd_ is not None and dd_.k == 'CallExpr' and dd_.callee and dd_.callee['name'] == 'back_inserter':
+                    acts.append(('push', self.value_desc(e.c[2])))
+                    return
         # res++ / ++res on a non-cursor variable: a counting accumulator
         if e.k == 'UnaryOperator' and e.op == '++' and ex.var_of(e.c[0]) is not None and ex.var_of(e.c[0]) not in self.cursors:
             acts.append(('inc', ex.var_of(e.c[0]), e))
@@ -296,6 +311,12 @@ def find_main_loop(prog, fn, cursors):
     return None
 
 
+def is_assert_stmt(st):
+    """an `assert(...)` statement (analysed with NDEBUG undefined): it has no effect on the state, its failure branch does not return"""
+    return any(x.k == 'CallExpr' and x.callee and x.callee['name'].startswith('__assert') for x in st.walk()) and \
+        not any(x.k in ('ReturnStmt', 'BinaryOperator') and (x.k == 'ReturnStmt' or x.op == '=') for x in st.walk())
+
+
 def check_shortcuts(rep, prog, fn, main, rule, what):
     """statements in front of the merge loop other than declarations"""
     ok = True
@@ -306,6 +327,8 @@ def check_shortcuts(rep, prog, fn, main, rule, what):
             continue
         e = st.strip_all() if st.k not in ('IfStmt',) else st
         if e.k == 'CXXMemberCallExpr' and e.callee and e.callee['name'] in ('reserve',):
+            continue
+        if is_assert_stmt(st):
             continue
         if e.k == 'IfStmt':
             verdict, detail = judge_shortcut(prog, fn, e)
@@ -505,12 +528,14 @@ def check_tails(rep, prog, fn, m, main, rule, what, expect_push):
         if bulk is not None:
             tails[bulk] = [('push', ('elem', bulk)), ('adv', bulk)]
             continue
-        if st.k == 'WhileStmt' and st.cond is not None:
+        if st.k in ('WhileStmt', 'ForStmt') and st.cond is not None and st.body is not None:
             vs = [v for v in ex.vars_in(st.cond) if v in m.cursors and m.cursors[v][1] == 'begin']
-            if len(vs) == 1:
+            if len(vs) == 1 and (st.k == 'WhileStmt' or st.role('init') is None or not list(st.role('init').walk())[1:]):
                 owner = m.cursors[vs[0]][0]
                 m.classify_locals(st.body)
                 acts = [simplify(a) for a in m.actions(st.body, 'lt') if a[0] in ('push', 'adv', 'other', 'if', 'loop')]
+                if st.k == 'ForStmt' and st.role('inc') is not None:
+                    acts += [simplify(a) for a in m.actions(st.role('inc'), 'lt') if a[0] in ('push', 'adv', 'other', 'if', 'loop')]
                 tails[owner] = acts
     if not expect_push:
         return
@@ -527,6 +552,8 @@ def check_tails(rep, prog, fn, m, main, rule, what, expect_push):
             (len(pushes) == 1 and pushes[0][1][0] == 'tuple' and all(x[1] == owner for x in pushes[0][1][1:] if isinstance(x, tuple) and len(x) > 1))
         if good_push and len(advs) == 1 and len(acts) == 2:
             rep.ok(rule, main, fn, whatt, 'while (it != end) { push(*it); it++; }')
+        elif any(a[0] in ('other', 'if', 'loop') for a in acts):
+            rep.undecided(rule, main, fn, whatt, 'tail loop contains statements outside the idiom table: %s' % (acts,))
         else:
             rep.violation(rule, main, fn, whatt, 'tail loop actions are %s' % (acts,), key='%s|%s|tail-%s' % (rule, fn.g, owner))
 
@@ -581,7 +608,7 @@ def check_dot(rep, prog, fn, rule='R17a', seed=None):
                 continue
             rep.undecided(rule, st, fn, what, 'statement in front of the merge loop is not in the idiom table (%s)' % detail)
             return
-        if st.k != 'DeclStmt':
+        if st.k != 'DeclStmt' and not is_assert_stmt(st):
             rep.undecided(rule, st, fn, what, 'statement in front of the merge loop is not in the idiom table')
             return
     rets = [r for r in ex.returns_of(fn) if r not in shortcut_rets]
@@ -1169,7 +1196,48 @@ def check_program(rep, prog, rules=('R17a', 'R17b', 'R17c'), cls=CLS):
     return seen
 
 
+def check_size_width(rep, prog):
+    """R17f: size() reports the number of stored coordinates in a type that can hold it for every index type: the all-ones vector
+    over a narrow index type U has max(U)+1 coordinates, so a size narrowed to U reads 0 (zero tests, the sparsest-support
+    heuristic and operator<< then treat the densest vector as the zero vector).  Decided on the instantiation with a 16-bit
+    index type: any narrowing integral conversion on the way to the returned value is the witness."""
+    what = 'size() returns the length of the coordinate list without narrowing it to the index type'
+    n = 0
+    for fn in prog.fns(CLS + '::size'):
+        if fn.body is None:
+            continue
+        n += 1
+        bad = None
+        for r in ex.returns_of(fn):
+            if not r.c:
+                continue
+            x = r.c[0]
+            while x is not None and x.k in ('ImplicitCastExpr', 'CStyleCastExpr', 'CXXStaticCastExpr', 'CXXFunctionalCastExpr', 'ParenExpr', 'ExprWithCleanups') and x.c:
+                if x.j.get('ck') == 'IntegralCast':
+                    tt, ft = prog.type(x.j.get('t')) or {}, prog.type(x.c[0].strip().j.get('t')) or {}
+                    wt, wf = _int_width(tt), _int_width(ft)
+                    if wt is not None and wf is not None and wt < wf:
+                        bad = (r, ft.get('s') or ft.get('canon'), tt.get('s') or tt.get('canon'))
+                x = x.c[0]
+        if bad:
+            rep.violation('R17f', bad[0], fn, what, 'the %s length is converted to %s: a vector with 2^%d coordinates reports size 0' % (
+                bad[1], bad[2], _int_width(prog.type(bad[0].c[0].j.get('t')) or {}) or 16), key='R17f|%s|narrow' % fn.g)
+        else:
+            rep.ok('R17f', fn.body, fn, what)
+    return n
+
+
+def _int_width(t):
+    c = (t.get('canon') or t.get('s') or '')
+    c = c.replace('const ', '').strip()
+    table = {'unsigned char': 8, 'signed char': 8, 'char': 8, 'unsigned short': 16, 'short': 16, 'unsigned int': 32, 'int': 32,
+             'unsigned long': 64, 'long': 64, 'unsigned long long': 64, 'long long': 64, 'bool': 1}
+    return table.get(c)
+
+
 def run(rep, tier):
+    rep.rule('R17f', 'size() is as wide as the coordinate list length', floor=1)
+    rep.rule('R07d', 'no dereference of a past-the-end iterator in the vector class (reachable from its operations)', floor=0)
     rep.rule('R17a', 'merge action tables of operator+ / operator* and strictness of shortcut guards', floor=3)
     rep.rule('R17b', 'canonical sources of the coordinate list', floor=8)
     rep.rule('R17c', 'compound operators safe under self-aliasing', floor=1)
@@ -1187,6 +1255,9 @@ def run(rep, tier):
         seen = max(seen, check_program(rep, prog))
         check_brace_assignment(rep, prog)
         check_erase_in_index_loop(rep, prog)
+        check_size_width(rep, prog)
+        from . import c07
+        c07.r07d(rep, prog, only_files=('spvecgf2',))
         sub = type(rep)(rep.prop, rep.tier)
         c04.check_wire(sub, prog)
         for i in sub.instances.values():
